@@ -16,7 +16,7 @@ RULE = ("Hypothesis-generated 2D/3D plotfiles x a sequence of 1-2 corruption ope
         "EOF / negative, physical bounds moved by >= 1 box width with coordinate validation on) at drawn sites, "
         "x level limit; the thorough tier also sweeps every operator at every box of small plotfiles. Oracle: when the "
         "independent reference validator finds an inconsistency of a listed class inside the validated levels, taste "
-        "must raise in failing mode and evaluate false without raising in nofail mode. Non-trivial = the reference "
+        "Box bounds are also replaced by nan / inf / overflowing literals. must raise in failing mode and evaluate false without raising in nofail mode. Non-trivial = the reference "
         "finds the tree inconsistent and (site is not box 0 of level 0, or the layout is scattered / non-monotone, "
         "or two operators applied).")
 ASSUMPTIONS = ["the reference validator (akv/corrupt.py: sequential structural scan + cross reference) decides 'inconsistent'",
